@@ -210,6 +210,10 @@ def run(ctx) -> None:
         ctx.check("R4", good, f"V2VersionInfo({fld}=...) receives the value parsed for '{fld}'", f"v2version.parse_field_values_to_vinfo: field '{fld}' is filled from another value",
                   f"{fld}={unparse(v) if v is not None else None}", loc=pv.loc(ctor[0]))
 
+    # two-digit year parts render the last two digits of a four-digit year; read back they are four-digit years again
+    from checks.c14 import two_digit_year_rule
+    two_digit_year_rule(ctx, "R4")
+
     # ---------------------------------------------------------------- R5
     defaults = _parse_defaults(ctx, pv)
     ctx.floor("R5", "zero-value parts", len(zero), 7)
